@@ -3,7 +3,7 @@ import QuillModel.Drivers.Util
 /-!
 Correspondence driver for the rotation model. Input: the trace printed by `harness/h3_rot.cpp`
 (`case …` then one `op => observation` line per operation performed on the real `RotatingFileSink` in a scratch
-directory). The driver replays the operations on `Rot.restart` / `Rot.write` (the definitions the theorems are
+directory; a `start` op may end in `sp=<k>`, the spelling of the path used for that start, which the model ignores). The driver replays the operations on `Rot.restart` / `Rot.write` (the definitions the theorems are
 about), renders the abstract file system and sink state and compares field by field:
 
   `next=<_next_rotation_time|-> open=<_open_file_timestamp> fsz=<_file_size> dq=<_created_files back→front> | <listing>`
@@ -152,7 +152,10 @@ def runTrace (adv : Bool) (minLimit : Nat) (delAllExcess : Bool) : IO UInt32 := 
             IO.println s!"MISMATCH case={c.id} line={lineNo} fields={",".intercalate d} : {opS} impl=[{obsS}] model=[{listing c.sch fs'}]"
             mism := mism + 1
         | none => IO.println s!"BAD-OP line {lineNo}: {line}"; problems := problems + 1
-      | ["start", limit, mx, ow, mode, cl, fr, iv, hh, mm, ts, off] =>
+      -- `_spelling`: nothing, or `sp=<k>` — how the harness spelled the sink's path for this (re)start (canonical,
+      -- relative, `./`, `x/../x`, through a symlink, …). The model has no such parameter: what is recovered and how the
+      -- sequence continues must not depend on it, so the driver ignores it by construction.
+      | "start" :: limit :: mx :: ow :: mode :: cl :: fr :: iv :: hh :: mm :: ts :: off :: _spelling =>
         let cfg : Cfg := { scheme := c.sch, limit := Drv.nat! limit, maxBackup := Drv.nat! mx, overwrite := ow == "1",
                            append := mode == "a", removeOld := cl == "1", freq := freqOf fr, interval := Drv.nat! iv,
                            dailyH := Drv.nat! hh, dailyM := Drv.nat! mm }
